@@ -6,6 +6,7 @@ use crate::{
         dcps_domain_participant::{
             builtin_constants::{TYPE_LOOKUP_REPLY_TOPIC_NAME, TYPE_LOOKUP_REQUEST_TOPIC_NAME},
             participant_entity::{BUILT_IN_TOPIC_NAME_LIST, DcpsDomainParticipant},
+            participant_methods::next_free_id,
             user_defined_data_reader::UserDefinedDataReader,
         },
         listeners::{
@@ -93,11 +94,19 @@ impl DcpsDomainParticipant {
             TopicKind::NoKey => USER_DEFINED_READER_NO_KEY,
             TopicKind::WithKey => USER_DEFINED_READER_WITH_KEY,
         };
+        // Entity ids are reused after deletion: take the next id no live reader of this subscriber holds
+        let Some(reader_id) = next_free_id(self.reader_counter, u16::MAX, |id| {
+            subscriber.data_reader_list.iter().any(|x| {
+                [x.instance_handle[13], x.instance_handle[14]] == id.to_ne_bytes()
+            })
+        }) else {
+            return Err(DdsError::OutOfResources);
+        };
         let entity_id = EntityId::new(
             [
                 subscriber.instance_handle[12],
-                self.reader_counter.to_ne_bytes()[0],
-                self.reader_counter.to_ne_bytes()[1],
+                reader_id.to_ne_bytes()[0],
+                reader_id.to_ne_bytes()[1],
             ],
             entity_kind,
         );
@@ -119,7 +128,7 @@ impl DcpsDomainParticipant {
             entity_id.entity_key()[2],
             entity_id.entity_kind(),
         ]);
-        self.reader_counter += 1;
+        self.reader_counter = reader_id.wrapping_add(1);
         let reliablity_kind = match qos.reliability.kind {
             ReliabilityQosPolicyKind::BestEffort => ReliabilityKind::BestEffort,
             ReliabilityQosPolicyKind::Reliable => ReliabilityKind::Reliable,
